@@ -1,6 +1,7 @@
 package sym
 
 import (
+	"time"
 	"fmt"
 	"regexp"
 	"go/types"
@@ -86,7 +87,18 @@ func init() {
 		return ret1(st, e.opaqueString("time", t))
 	}
 	R("(time.Time).String", strOf)
-	R("(time.Time).Format", strOf)
+	R("(time.Time).Format", func(e *Exec, st *State, fn *ssa.Function, args []Value, depth int) []Outcome {
+		t := e.timeTerm(args[0])
+		layout, ok := args[1].(string)
+		if t.Op == OpConst && ok {
+			// concrete instant: format natively (UTC, as every harness time is)
+			sec, ns := new(big.Int).DivMod(t.Val, big.NewInt(1000000000), new(big.Int))
+			if sec.IsInt64() {
+				return ret1(st, time.Unix(sec.Int64(), ns.Int64()).UTC().Format(layout))
+			}
+		}
+		return ret1(st, e.opaqueString("time", t))
+	})
 	R("(time.Duration).String", func(e *Exec, st *State, fn *ssa.Function, args []Value, depth int) []Outcome {
 		return ret1(st, e.opaqueString("dur", args[0].(*Term)))
 	})
